@@ -26,10 +26,12 @@ CONSTANTS Species,    \* lower-cased symbols of plasma species (an element, one 
           MaxHist,    \* bound on history length
           SameFamily, \* TRUE: all steps of one behaviour address the same family (cross-family runs use FALSE)
           MaxMulti,   \* max number of keys in one multi-key update (0 = none)
-          InstFronts  \* install_* front-ends explored (subset of Fronts; {} = none)
+          InstFronts, \* install_* front-ends explored (subset of Fronts; {} = none)
+          Probes      \* subset of BOOLEAN: does the caller read every key back after every call (TRUE) or only at the end
 
-VARIABLES store, hist
-vars == <<store, hist>>
+VARIABLES store, hist,
+          probe       \* fixed per behaviour: reads in between must not matter (a read never changes what later reads return)
+vars == <<store, hist, probe>>
 
 Adf11Fams == {"ionisation", "recombination", "line_power", "continuum_power", "cx_power"}
 TransFams == {"pec_excitation", "pec_recombination", "wavelength"}
@@ -73,7 +75,7 @@ Files(st) == {FileOf(k) : k \in {kk \in AllKeys : st[kk] # 0}}
 ASSUME PrintT(ToJson([universe |-> AllKeys]))
 
 Init == /\ store = [k \in AllKeys |-> 0]
-        /\ hist = <<>>
+        /\ hist = <<>> /\ probe \in Probes
 
 Abs(st) == {<<k, st[k]>> : k \in {kk \in AllKeys : st[kk] # 0}}
 
@@ -156,7 +158,7 @@ NextStep ==
 
 Next ==
   /\ Len(hist) < MaxHist
-  /\ NextStep
+  /\ NextStep /\ UNCHANGED probe
 
 Spec == Init /\ [][Next]_vars
 
@@ -189,7 +191,7 @@ OthersUntouched == [][Len(hist') > 0 /\ \A k \in AllKeys : store'[k] # store[k] 
 NoAliasing == \A k1, k2 \in AllKeys : (k1[1] # k2[1]) => FileOf(k1) # FileOf(k2)
 
 Bound == Len(hist) <= MaxHist
-View == store
+View == <<store, probe>>
 
-Emit == PrintT(ToJson([h |-> hist']))
+Emit == PrintT(ToJson([h |-> hist', probe |-> probe']))
 =============================================================================
